@@ -10,7 +10,7 @@ Definition icmp_flow_new cl sv raw :=
 (** IcmpDgram::new(src,dst,raw).ping/pong(id, seq, bytes) *)
 Definition icmp_dgram (src dst : N) (raw : bool) (typ id seq : N) (b : bytes) : outcome packet :=
   let iph0 := ip_calc_csum (ip_set_daddr (ip_set_saddr (ip_set_tot_len (ip_set_protocol ip_default PROTO_ICMP) 28) src) dst) in
-  do t <- cadd two16 "ipv4.rs add_tot_len overflow" (ip_tot_len iph0) (wrap16 (len b));
+  let t := wrap16 (ip_tot_len iph0 + wrap16 (len b)) in
   let iph := ip_calc_csum (ip_set_tot_len iph0 t) in
   let h0 := {| ic_typ := typ; ic_code := 0; ic_csum := 0; ic_id := id; ic_seq := seq |} in
   let c := ip_checksum (icmp_ser h0 ++ b) in
@@ -20,9 +20,9 @@ Definition icmp_dgram (src dst : N) (raw : bool) (typ id seq : N) (b : bytes) : 
 
 Definition icmp_echo f (b : bytes) : outcome (icmp_flow * packet) :=
   do p <- icmp_dgram (if_cl f) (if_sv f) (if_raw f) ICMP_ECHO (if_id f) (if_ping f) b;
-  do n <- cadd two16 "icmp4.rs ping_seq overflow" (if_ping f) 1;
+  let n := wrap16 (if_ping f + 1) in
   Ok ({| if_cl := if_cl f; if_sv := if_sv f; if_raw := if_raw f; if_id := if_id f; if_ping := n; if_pong := if_pong f |}, p).
 Definition icmp_echo_reply f (b : bytes) : outcome (icmp_flow * packet) :=
   do p <- icmp_dgram (if_sv f) (if_cl f) (if_raw f) ICMP_ECHOREPLY (if_id f) (if_pong f) b;
-  do n <- cadd two16 "icmp4.rs pong_seq overflow" (if_pong f) 1;
+  let n := wrap16 (if_pong f + 1) in
   Ok ({| if_cl := if_cl f; if_sv := if_sv f; if_raw := if_raw f; if_id := if_id f; if_ping := if_ping f; if_pong := n |}, p).
